@@ -30,6 +30,7 @@ import (
 	"github.com/prometheus/prometheus/storage"
 	"github.com/prometheus/prometheus/tsdb/chunkenc"
 	"github.com/prometheus/prometheus/tsdb/chunks"
+	"github.com/prometheus/prometheus/tsdb/index"
 	"github.com/prometheus/prometheus/tsdb/tsdbutil"
 )
 
@@ -46,6 +47,16 @@ type c24Series struct {
 }
 
 type c24Obs struct {
+	// wide block (see WideObs in BlockFmt.tla)
+	Wide      int `json:"wide"`
+	NValues   int `json:"nvalues"`
+	FirstRank int `json:"firstrank"`
+	LastRank  int `json:"lastrank"`
+	All       int `json:"all"`
+	NotFirst  int `json:"notfirst"`
+	NotLast   int `json:"notlast"`
+	OnlyLast  int `json:"onlylast"`
+
 	Symbols  []string                      `json:"symbols"`
 	Names    []string                      `json:"names"`
 	Values   map[string][]string           `json:"values"`
@@ -76,6 +87,119 @@ type c24Step struct {
 type c24Rec struct {
 	H     []c24Step   `json:"h"`
 	Block []c24Series `json:"block"`
+	Wide  int         `json:"wide"`
+}
+
+// c24WideBlock is the concretisation of a wide block: n series {job="j", w="v001"..}, one XOR chunk of 2 samples each.
+func c24WideBlock(n int) []c24Series {
+	var blk []c24Series
+	for i := 1; i <= n; i++ {
+		blk = append(blk, c24Series{Labels: map[string]string{"job": "j", "w": fmt.Sprintf("v%03d", i)}, Chunks: []c24Chunk{{Enc: "xor", N: 2, Mint: 100, Maxt: 101}}})
+	}
+	return blk
+}
+
+// c24CheckWide compares what the opened wide block returns for the label name w with the prediction:
+// all n values in order, the series behind every value, and selectors that need the complete value list.
+func c24CheckWide(ri int, what, bd string, obs *c24Obs, cs map[string]any) {
+	viol := func(sig, msg string) {
+		verifh.Violation(sig, fmt.Sprintf("record %d (%s, wide block of %d values): %s", ri, what, obs.Wide, msg), cs)
+	}
+	blk, err := OpenBlock(nil, bd, nil, nil)
+	if err != nil {
+		viol("open", err.Error())
+		return
+	}
+	defer blk.Close()
+	ctx := context.Background()
+	ir, _ := blk.Index()
+	defer ir.Close()
+	names, err := ir.LabelNames(ctx)
+	if err != nil || !slices.Equal(names, []string{"job", "w"}) {
+		viol("label-names", fmt.Sprintf("label names %v (%v)", names, err))
+	}
+	var want []string
+	for i := 1; i <= obs.NValues; i++ {
+		want = append(want, fmt.Sprintf("v%03d", i))
+	}
+	vals, err := ir.SortedLabelValues(ctx, "w", nil)
+	if err != nil || !slices.Equal(vals, want) {
+		viol("label-values", fmt.Sprintf("LabelValues(w) returns %d values (%v), last %v; specification %d values up to %s", len(vals), err, vals[max(len(vals)-2, 0):], obs.NValues, want[len(want)-1]))
+	}
+	// rank of every series by label order
+	rank := map[storage.SeriesRef]int{}
+	p := AllSortedPostings(ctx, ir)
+	for p.Next() {
+		rank[p.At()] = len(rank) + 1
+	}
+	if len(rank) != obs.All {
+		viol("series", fmt.Sprintf("%d series, specification %d", len(rank), obs.All))
+	}
+	for i, v := range want {
+		pp, err := ir.Postings(ctx, "w", v)
+		var rs []int
+		if err == nil {
+			for pp.Next() {
+				rs = append(rs, rank[pp.At()])
+			}
+			err = pp.Err()
+		}
+		if err != nil || !slices.Equal(rs, []int{i + 1}) {
+			viol("postings", fmt.Sprintf("postings w=%s: series %v (%v), specification [%d]", v, rs, err, i+1))
+			break
+		}
+	}
+	count := func(pp index.Postings) int {
+		n := 0
+		for pp.Next() {
+			n++
+		}
+		return n
+	}
+	if n := count(ir.PostingsForAllLabelValues(ctx, "w")); n != obs.All {
+		viol("postings-all-values", fmt.Sprintf("PostingsForAllLabelValues(w) has %d series, specification %d", n, obs.All))
+	}
+	last := want[len(want)-1]
+	if n := count(ir.PostingsForLabelMatching(ctx, "w", func(v string) bool { return v == last })); n != obs.OnlyLast {
+		viol("postings-matching", fmt.Sprintf("PostingsForLabelMatching(w == %s) has %d series, specification %d", last, n, obs.OnlyLast))
+	}
+	// selectors through the block querier
+	q, err := NewBlockQuerier(blk, math.MinInt64, math.MaxInt64)
+	if err != nil {
+		viol("querier", err.Error())
+		return
+	}
+	defer q.Close()
+	sel := func(m *labels.Matcher) (int, bool) {
+		ss := q.Select(ctx, true, nil, m)
+		n, hasLast := 0, false
+		for ss.Next() {
+			n++
+			if ss.At().Labels().Get("w") == last {
+				hasLast = true
+			}
+		}
+		return n, hasLast
+	}
+	for _, tc := range []struct {
+		m        *labels.Matcher
+		n        int
+		wantLast bool
+	}{
+		{labels.MustNewMatcher(labels.MatchRegexp, "w", "v.*"), obs.All, true},
+		{labels.MustNewMatcher(labels.MatchNotEqual, "w", want[0]), obs.NotFirst, true},
+		{labels.MustNewMatcher(labels.MatchNotEqual, "w", last), obs.NotLast, false},
+		{labels.MustNewMatcher(labels.MatchRegexp, "w", ".*"+last[1:]), obs.OnlyLast, true},
+		{labels.MustNewMatcher(labels.MatchEqual, "w", last), obs.OnlyLast, true},
+	} {
+		if n, hl := sel(tc.m); n != tc.n || hl != tc.wantLast {
+			viol("selector", fmt.Sprintf("selector %s returns %d series (series of the last value included: %v), specification %d (%v)", tc.m, n, hl, tc.n, tc.wantLast))
+		}
+	}
+	lv, _, err := q.LabelValues(ctx, "w", nil)
+	if err != nil || len(lv) != obs.NValues {
+		viol("label-values", fmt.Sprintf("querier LabelValues(w) returns %d values (%v), specification %d", len(lv), err, obs.NValues))
+	}
 }
 
 type c24Orig struct {
@@ -400,6 +524,26 @@ func TestVerifC24BlockFmt(t *testing.T) {
 		dir := t.TempDir()
 		var bd string
 		var orig *c24Orig
+		if rec.Wide > 0 {
+			bd = c24Write(t, dir, c24WideBlock(rec.Wide))
+			for _, st := range rec.H {
+				switch st.A {
+				case "Write":
+					c24CheckWide(ri, "Write", bd, &st.Obs, cs)
+				case "Reopen": // every check opens the block anew
+					c24CheckWide(ri, "Reopen", bd, &st.Obs, cs)
+				case "Recompact":
+					dest := filepath.Join(dir, "re")
+					ulids, err := c24Compactor(t).Compact(dest, []string{bd}, nil)
+					if err != nil || len(ulids) != 1 {
+						verifh.Violation("recompact", fmt.Sprintf("record %d: compaction of the wide block: %v", ri, err), cs)
+						continue
+					}
+					c24CheckWide(ri, "Recompact", filepath.Join(dest, ulids[0].String()), &st.Obs, cs)
+				}
+			}
+			continue
+		}
 		for si, st := range rec.H {
 			switch st.A {
 			case "Write":
